@@ -338,3 +338,12 @@ package ovsdb
 //@ modifies u.GoUUID
 //@ ensures u.GoUUID == jsonelem(b, 1, "string") || u.GoUUID == old(u.GoUUID)
 //@ ensures jsonlen(b) != 2 ==> u.GoUUID == old(u.GoUUID)
+
+// unmarshalExact (notation.go): encoding/json's decoder with UseNumber, then
+// every number turned into float64, or into int when it is an integer literal
+// float64 cannot hold exactly. Like json.Unmarshal it writes the value its
+// argument points at and nothing else (trusted: it is encoding/json plus a walk
+// over the value it just decoded).
+//@ func unmarshalExact
+//@ trusted "encoding/json decoder with UseNumber; writes only the value v points at"
+//@ modifies *unbox(v, "*interface{}"), *unbox(v, "*[]interface{}"), *unbox(v, "*map[string]interface{}")
